@@ -532,12 +532,63 @@ func runAdapter(st *stateSt, req int, target string, payloads [][]byte, gated bo
 	return lib.List(items), nc, nb
 }
 
+// runAdapterRequest sends one query request through the real bungee.go adapter over a Proxy holding the
+// state; the answers are the plugin messages written on the players' BACKEND connections.
+func runAdapterRequest(st *stateSt, req int, data []byte) (effects []string, handled, panicked bool, kinds map[string]int) {
+	w := proxy.VerifC26NewWorld()
+	for _, s := range st.servers {
+		w.AddServer(s.name, &net.TCPAddr{IP: s.ip, Port: s.port})
+	}
+	type pc struct{ client, backend *pmsg.Conn }
+	conns := make([]pc, len(st.players))
+	for i, p := range st.players {
+		c := pmsg.NewConn(2*i, state.Play, version.Minecraft_1_20_2.Protocol)
+		b := pmsg.NewConn(2*i+1, state.Play, protoOf(p.modern))
+		conns[i] = pc{c, b}
+		w.AddPlayer(p.name, p.id, c, p.server, b)
+	}
+	kinds = map[string]int{}
+	func() {
+		defer func() {
+			if x := recover(); x != nil {
+				panicked = true
+			}
+		}()
+		handled = w.Responder(st.players[req].name).Process(&plugin.Message{Channel: "BungeeCord", Data: data})
+	}()
+	for i, p := range st.players {
+		for _, wr := range conns[i].backend.Writes() {
+			switch {
+			case wr.Kind == "pkt" && wr.Channel == "bungeecord:main":
+				effects = append(effects, lib.App("EResponse", lib.Str(p.name), "true", lib.Bytes(wr.Data)))
+				kinds["response"]++
+			case wr.Kind == "pkt" && wr.Channel == "BungeeCord":
+				effects = append(effects, lib.App("EResponse", lib.Str(p.name), "false", lib.Bytes(wr.Data)))
+				kinds["response"]++
+			default:
+				effects = append(effects, "EOracleMiss")
+				kinds["weird"]++
+			}
+		}
+		for range conns[i].client.Writes() { // nothing of these requests may reach a client
+			effects = append(effects, "EOracleMiss")
+			kinds["weird"]++
+		}
+	}
+	if panicked {
+		handled = true
+		effects = append(effects, "EPanic")
+		kinds["panic"]++
+	}
+	return
+}
+
 func main() {
 	f := lib.ParseFlags()
 	rng := lib.NewRng(f.Seed)
 	out := lib.NewOut("C26", f)
 	out.Imports = "From Verif Require Import Model.Bungee.\n"
-	out.Rule = "dispatch layer: a pool of 40 proxy states of 1..3 servers and 1..4 players (10% without server, 2/3 modern connections), requester drawn from the players; sub-channel uniform over the 18 known ones plus unknown/empty names; player arguments known (any case) 70% / unknown 20% / empty 10%, server arguments known 60% / unknown 20% / ALL,ONLINE in several cases 20%; forward payloads well-formed 58%, with trailing bytes, negative int16 length, body or channel shorter than announced, or missing; texts plain, empty, JSON {\"text\":..} and invalid JSON; 20% of all requests cut at a random byte; 4% on a non-BungeeCord channel. adapter layer: well-formed Forward requests to a server / ALL / ONLINE through bungee.go over recording connections. dispatch histories: 2..3 requests (3/4 Forward/ForwardToPlayer with equal or shrinking frames) through ONE responder, the slices handed to the fake Providers printed only after the last request. adapter two-request cases: Forward A then Forward B to the same target through bungee.go while every player connection blocks in WritePacket (channel-gated), released afterwards. distinct = distinct Coq term; non-trivial = at least one effect (or write) observed, or a panic"
+	out.Rule = "dispatch layer: a pool of 40 proxy states of 1..3 servers and 1..4 players (10% without server, 2/3 modern connections), requester drawn from the players; sub-channel uniform over the 18 known ones plus unknown/empty names; player arguments known (any case) 70% / unknown 20% / empty 10%, server arguments known 60% / unknown 20% / ALL,ONLINE in several cases 20%; forward payloads well-formed 58%, with trailing bytes, negative int16 length, body or channel shorter than announced, or missing; texts plain, empty, JSON {\"text\":..} and invalid JSON; 20% of all requests cut at a random byte; 4% on a non-BungeeCord channel. adapter layer: well-formed Forward requests to a server / ALL / ONLINE through bungee.go over recording connections. dispatch histories: 2..3 requests (3/4 Forward/ForwardToPlayer with equal or shrinking frames) through ONE responder, the slices handed to the fake Providers printed only after the last request. adapter query cases: PlayerCount / PlayerList / ServerIP / GetServers / GetServer / Connect / ConnectOther through bungee.go with a registered server name, a case variant, an unregistered name or ALL (lists kept to one element: map order of the real Proxy is not an observable; Connect only towards unregistered names), answers read off the players' backend connections, panics recovered and recorded. adapter two-request cases: Forward A then Forward B to the same target through bungee.go while every player connection blocks in WritePacket (channel-gated), released afterwards. distinct = distinct Coq term; non-trivial = at least one effect (or write) observed, or a panic"
 	// a pool of proxy states, defined once per shard file (parsing literals is what costs time in coqc)
 	type pooled struct {
 		st   *stateSt
@@ -688,6 +739,67 @@ func main() {
 		desc := map[string]any{"layer": "dispatch-history", "subs": subsUsed, "channel": channel, "requester": fw.req.name,
 			"data_hex": lib.ListOf(datas, func(d []byte) string { return hex.EncodeToString(d) }), "state": st.String(), "effects": rec.n}
 		out.Add(term, desc, rec.count() > 0, "layer=dispatch-history", fmt.Sprintf("history-requests=%d", k))
+	}
+	// adapter layer, server-addressed query sub-channels: registered / unregistered / ALL / case variants
+	qn := f.Count(90)
+	for i := 0; i < qn; i++ {
+		r := rng.Fork()
+		st, req, stName := pick(r)
+		known := st.servers[r.Intn(len(st.servers))].name
+		var arg, argTag string
+		switch r.Intn(8) {
+		case 0, 1:
+			arg, argTag = known, "server=registered"
+		case 2:
+			arg, argTag = varyCase(r, known), "server=case-variant"
+		case 3, 4, 5:
+			arg, argTag = r.PickS("nowhere", known+"y", "", "lobby2"), "server=unregistered"
+		default:
+			arg, argTag = r.PickS("ALL", "ALL", "all"), "server=ALL"
+		}
+		onArg := 0
+		for _, p := range st.players {
+			if strings.EqualFold(p.server, arg) && arg != "" {
+				onArg++
+			}
+		}
+		sub := r.PickS("PlayerCount", "PlayerCount", "PlayerList", "PlayerList", "ServerIP", "ServerIP", "GetServers", "GetServer", "Connect", "ConnectOther")
+		// map iteration order of the real Proxy is not an observable: keep lists to at most one element
+		if sub == "PlayerList" && (onArg > 1 || (strings.EqualFold(arg, "ALL") && len(st.players) > 1)) {
+			sub = "PlayerCount"
+		}
+		if sub == "GetServers" && len(st.servers) > 1 {
+			sub = "ServerIP"
+		}
+		if (sub == "Connect" || sub == "ConnectOther") && argTag != "server=unregistered" {
+			arg, argTag = "nowhere", "server=unregistered" // a real connection attempt needs a dialer
+		}
+		b := new(bytes.Buffer)
+		utf(b, sub)
+		switch sub {
+		case "GetServers", "GetServer":
+			argTag = "server=none"
+		case "ConnectOther":
+			utf(b, st.players[r.Intn(len(st.players))].name)
+			utf(b, arg)
+		default:
+			utf(b, arg)
+		}
+		data := b.Bytes()
+		if r.Chance(1, 12) && len(data) > 0 {
+			data = data[:r.Intn(len(data))]
+			argTag = "truncated"
+		}
+		var eff []string
+		handled, panicked := false, false
+		kinds := map[string]int{}
+		if out.Wanted() {
+			eff, handled, panicked, kinds = runAdapterRequest(st, req, data)
+		}
+		term := lib.App("Check.C26.mk", stName, lib.Str(st.players[req].name), "[]", lib.Str("BungeeCord"), lib.Bytes(data), lib.Bool(handled), lib.List(eff))
+		desc := map[string]any{"layer": "adapter-query", "sub": sub, "arg": arg, "data_hex": hex.EncodeToString(data), "requester": st.players[req].name,
+			"requester_server": st.players[req].server, "state": st.String(), "handled": handled, "effects": kinds, "panic": panicked}
+		out.Add(term, desc, len(eff) > 0, "layer=adapter-query", "sub="+sub, argTag)
 	}
 	// adapter layer, two Forward requests while every player connection is blocked
 	an := f.Count(24)
